@@ -48,7 +48,8 @@ CONFIGS = {
         # every bound pattern x every type on one column, all three model classes, min and max
         cfg('bounds1', Cols=1, CoefSet={4, 10}, LbSet={1, Z, 10, 3}, UbSet={13, Z, 11}, VtSet={'C', 'B', 'I'},
             ObjSet={10, 4}, ClsSet=ALLCLS, DirSet={'min', 'max'}),
-        cfg('bounds2', CoefSet={4, 10}, LbSet={1, 3}, UbSet={13, Z}, VtSet={'C', 'B', 'I'}, ClsSet={'GCProg'}),
+        cfg('bounds2', CoefSet={4, 10}, LbSet={1, 3}, UbSet={13, Z}, VtSet={'C', 'B', 'I'}, ObjSet={Z, 10},
+            ClsSet={'GCProg'}),
         # cones, empty rows, zeros stored explicitly (0.0 and -0.0), columns in no row
         cfg('cone', Cols=3, CoefSet={Z, 4}, RhsSet={Z, 4}, LbSet={1}, UbSet={13}, EzSet={0, 1, 2}, WithCone=True,
             ClsSet=ALLCLS, ModeSet={'primal', 'dual'}),
@@ -83,7 +84,8 @@ REQUIRED_CLASSES = [
     'rhs-negative-zero', 'rhs-negative', 'empty-row', 'empty-row-nothing-stored', 'column-in-no-row',
     'vtype-C', 'vtype-B', 'vtype-I', 'lb--inf', 'lb-zero', 'lb-neg', 'lb-pos', 'ub-+inf', 'ub-zero', 'ub-pos',
     'fixed-column', 'binary-with-user-bound', 'cone', 'cone-one-member', 'row-eq', 'row-le', 'objective-general',
-    'objective-negative-coef', 'exponent-notation-in-text', 'negative-exponent-in-text',
+    'objective-negative-coef', 'exponent-notation-in-text', 'negative-exponent-in-text', 'row-leading-minus',
+    'objective-leading-minus', 'column-in-no-row-nor-objective',
     'cls-LinProg', 'cls-SOCProg', 'cls-GCProg', 'mode-primal', 'mode-dual', 'mode-robust', 'dir-min', 'dir-max',
     'outcome-optimal', 'outcome-infeasible', 'outcome-unbounded']
 
